@@ -221,6 +221,22 @@ def runStd (_prop : String) (f : List String) (obsS : String) : Verdict :=
         ⟨hex m == obsS, obsS, hex m, vi, ["standalone"], false⟩
   | _ => bad
 
+/-- `MetricBackend::send_metric` hands the sink exactly the metric's string, once, undecorated, and
+returns the sink's own error; `consume_error` hands the error to the client's handler, once -/
+def runRaw (_prop : String) (f : List String) (obsS : String) : Verdict :=
+  match f with
+  | [_, textH, sinkS, mode] =>
+    let expected :=
+      if mode == "c" then "unit/~/inv"
+      else if sinkS == "a" || sinkS.startsWith "b" then s!"ok/{textH}/~"
+      else s!"io:{(sinkS.drop 1).toString}:1/{textH}/~"
+    let v : Option (String × String) :=
+      if obsS.startsWith "panic" then some ("C03+C20", "send_metric / consume_error panicked")
+      else if obsS != expected then some ("C03", "send_metric did not hand the sink exactly the metric once and return the sink's answer / consume_error did not reach the handler once")
+      else none
+    ⟨obsS == expected, obsS, expected, v, ["metric-backend"], false⟩
+  | _ => bad
+
 /-- `impl Display for MetricValue` against `Val.render` -/
 def runVal (_prop : String) (f : List String) (obsS : String) : Verdict :=
   match f with
